@@ -34,7 +34,10 @@ import (
 // If this is a concern, ValidMailbox and ValidDomain should be used on the
 // output.
 func Split(addr string) (mailbox, domain string, err error) {
-	if strings.EqualFold(addr, "postmaster") {
+	// "Postmaster" is matched as a case-insensitive ASCII string (RFC 5321
+	// Section 4.1.1.3). strings.EqualFold uses Unicode case folding and
+	// alone would also accept "postma\u017Fter" (LATIN SMALL LETTER LONG S).
+	if len(addr) == len("postmaster") && strings.EqualFold(addr, "postmaster") {
 		return addr, "", nil
 	}
 
